@@ -4,15 +4,13 @@
 
    The model keeps the EXACT bookkeeping of the Go code: [offset] (index of the next byte to
    load, one past the end once the end was loaded), [ch] (current byte, 0 at the end), [lpos]
-   (l.pos) and [npos] (l.nextPos); [unread] steps the two columns back by one whatever the
-   current byte is, as the Go code does ("doesn't handle line boundaries").  Go indexing and
+   (l.pos) and [npos] (l.nextPos); [unread] steps l.pos one column back and makes the old
+   l.pos the next position, as the Go code does.  Go indexing and
    slicing are checked ([LPanic] where Go would panic); every loop runs on explicit fuel
    ([LFuel] when it runs out; Proofs/LexerTotal.v shows it never does with fuel = length+2).
 
-   Ghost fields (not in the Go struct, never read by the modelled code):
-     [xl]   set by [unread] when the byte un-read over is CR or LF,
-     [over] set by [next] when it is called although the end of input was already loaded.
-   A token additionally records the byte offset at which its position was captured. *)
+   Ghost field (not in the Go code): a token additionally records the byte offset at which its
+   position was captured ([tstart]). *)
 From Verif Require Import Lib.Base Lib.Utf8.
 Open Scope Z_scope.
 
@@ -126,9 +124,7 @@ Record lexer : Type := mkL {
   lpos : position;
   npos : position;
   hadSpace : bool;
-  lastTok : Z;
-  xl : bool;       (* ghost *)
-  over : bool      (* ghost *)
+  lastTok : Z
 }.
 
 Definition col_add (p : position) (d : Z) : position := (fst p, snd p + d).
@@ -138,23 +134,21 @@ Definition next (src : bytes) (l : lexer) : lres lexer :=
   let p := npos l in
   if offset l >=? zlen src then
     if ch l =? 0
-    then LOk (mkL (offset l) (ch l) p p (hadSpace l) (lastTok l) (xl l)
-                  (over l || (offset l >? zlen src)))
-    else LOk (mkL (offset l + 1) 0 p (col_add p 1) (hadSpace l) (lastTok l) (xl l) (over l))
+    then LOk (mkL (offset l) (ch l) p p (hadSpace l) (lastTok l))
+    else LOk (mkL (offset l + 1) 0 p p (hadSpace l) (lastTok l))
   else
     dol c <- of_res (index src (offset l));
     let np := if c =? 10 then (fst p + 1, 1) else if c =? 13 then p else col_add p 1 in
-    LOk (mkL (offset l + 1) c p np (hadSpace l) (lastTok l) (xl l) (over l)).
+    LOk (mkL (offset l + 1) c p np (hadSpace l) (lastTok l)).
 
 (* func (l *Lexer) unread() *)
 Definition unread (src : bytes) (l : lexer) : lres lexer :=
   dol c <- of_res (index src (offset l - 1 - 1));
-  LOk (mkL (offset l - 1) c (col_add (lpos l) (-1)) (col_add (npos l) (-1)) (hadSpace l) (lastTok l)
-           (xl l || (ch l =? 10) || (ch l =? 13)) (over l)).
+  LOk (mkL (offset l - 1) c (col_add (lpos l) (-1)) (lpos l) (hadSpace l) (lastTok l)).
 
 (* func NewLexer(src) *)
 Definition new_lexer (src : bytes) : lres lexer :=
-  next src (mkL 0 0 (0, 0) (1, 1) false T_ILLEGAL false false).
+  next src (mkL 0 0 (0, 0) (1, 1) false T_ILLEGAL).
 
 Definition is_name_start (c : Z) : bool :=
   (c =? 95) || ((97 <=? c) && (c <=? 122)) || ((65 <=? c) && (c <=? 90)).
@@ -189,15 +183,13 @@ Record token : Type := mkT {
   tpos : position;
   tkind : Z;
   tval : bytes;
-  tstart : Z;        (* ghost: byte offset at which tpos was captured *)
-  tbad : bool;       (* ghost: xl at the moment the scan of this token began *)
-  tover : bool       (* ghost: over at the moment the token was returned *)
+  tstart : Z         (* ghost: byte offset at which tpos was captured *)
 }.
 
 Definition set_had_space (v : bool) (l : lexer) : lexer :=
-  mkL (offset l) (ch l) (lpos l) (npos l) v (lastTok l) (xl l) (over l).
+  mkL (offset l) (ch l) (lpos l) (npos l) v (lastTok l).
 Definition set_last_tok (t : Z) (l : lexer) : lexer :=
-  mkL (offset l) (ch l) (lpos l) (npos l) (hadSpace l) t (xl l) (over l).
+  mkL (offset l) (ch l) (lpos l) (npos l) (hadSpace l) t.
 
 (* ---- the whitespace / line continuation loop at the head of scan() ---------------- *)
 Inductive ws_out : Type :=
@@ -301,8 +293,8 @@ Fixpoint parse_string (src : bytes) (fuel : nat) (quote : Z) (chars : bytes) (l 
   end.
 
 (* ---- scan() ------------------------------------------------------------------------ *)
-Definition tok_at (lc : lexer) (l0 : lexer) (kind : Z) (val : bytes) (l : lexer) : token * lexer :=
-  (mkT (lpos lc) kind val (Z.max 0 (offset lc - 1)) (xl l0) (over l), l).
+Definition tok_at (lc : lexer) (kind : Z) (val : bytes) (l : lexer) : token * lexer :=
+  (mkT (lpos lc) kind val (Z.max 0 (offset lc - 1)), l).
 
 (* the switch over the first character, everything except names, numbers and strings;
    l is the lexer after the l.next() that follows `ch := l.ch` *)
@@ -368,13 +360,13 @@ Definition scan (src : bytes) (fuel : nat) (l0 : lexer) : lres (token * lexer) :
   dol w <- skip_ws src fuel l;
   match w with
   | WsIllegal l =>
-      LOk (tok_at l l0 T_ILLEGAL ((* expected \n after \ line continuation *) [101; 120; 112; 101; 99; 116; 101; 100; 32; 92; 110; 32; 97; 102; 116; 101; 114; 32; 92; 32; 108; 105; 110; 101; 32; 99; 111; 110; 116; 105; 110; 117; 97; 116; 105; 111; 110]) l)
+      LOk (tok_at l T_ILLEGAL ((* expected \n after \ line continuation *) [101; 120; 112; 101; 99; 116; 101; 100; 32; 92; 110; 32; 97; 102; 116; 101; 114; 32; 92; 32; 108; 105; 110; 101; 32; 99; 111; 110; 116; 105; 110; 117; 97; 116; 105; 111; 110]) l)
   | WsDone l =>
     dol l <- (if ch l =? 35
               then dol l1 <- next src l;
                    skip_while src fuel (fun c => negb (c =? 10) && negb (c =? 0)) l1
               else LOk l);
-    if ch l =? 0 then LOk (tok_at l l0 T_EOF [] l)
+    if ch l =? 0 then LOk (tok_at l T_EOF [] l)
     else
       let lc := l in                         (* pos := l.pos *)
       let c := ch l in
@@ -384,8 +376,8 @@ Definition scan (src : bytes) (fuel : nat) (l0 : lexer) : lres (token * lexer) :
         dol l <- skip_while src fuel (fun c => is_name_start c || is_digit c) l;
         dol name <- of_res (slice src start (offset l - 1));
         let t := keyword_token name in
-        if t =? T_ILLEGAL then LOk (tok_at lc l0 T_NAME name l)
-        else LOk (tok_at lc l0 t [] l)
+        if t =? T_ILLEGAL then LOk (tok_at lc T_NAME name l)
+        else LOk (tok_at lc t [] l)
       else if is_digit c || (c =? 46) then
         let start := offset l - 2 in
         dol gl <- (if negb (c =? 46)
@@ -396,30 +388,30 @@ Definition scan (src : bytes) (fuel : nat) (l0 : lexer) : lres (token * lexer) :
         let '(got0, l) := gl in
         dol gl <- skip_digits src fuel got0 l;
         let '(got_digit, l) := gl in
-        if negb got_digit then LOk (tok_at l l0 T_ILLEGAL ((* expected digits *) [101; 120; 112; 101; 99; 116; 101; 100; 32; 100; 105; 103; 105; 116; 115]) l)
+        if negb got_digit then LOk (tok_at l T_ILLEGAL ((* expected digits *) [101; 120; 112; 101; 99; 116; 101; 100; 32; 100; 105; 103; 105; 116; 115]) l)
         else
           dol l <- (if (ch l =? 101) || (ch l =? 69) then scan_exponent src fuel l else LOk l);
           dol v <- of_res (slice src start (offset l - 1));
-          LOk (tok_at lc l0 T_NUMBER v l)
+          LOk (tok_at lc T_NUMBER v l)
       else if (c =? 34) || (c =? 39) then
         dol s <- parse_string src fuel c [] l;
         match s with
-        | StrErr msg l => LOk (tok_at l l0 T_ILLEGAL msg l)
+        | StrErr msg l => LOk (tok_at l T_ILLEGAL msg l)
         | StrOk chars l =>
           if negb (ch l =? c)
-          then LOk (tok_at l l0 T_ILLEGAL ((* didn't find end quote in string *) [100; 105; 100; 110; 39; 116; 32; 102; 105; 110; 100; 32; 101; 110; 100; 32; 113; 117; 111; 116; 101; 32; 105; 110; 32; 115; 116; 114; 105; 110; 103]) l)
-          else dol l <- next src l; LOk (tok_at lc l0 T_STRING (rev chars) l)
+          then LOk (tok_at l T_ILLEGAL ((* didn't find end quote in string *) [100; 105; 100; 110; 39; 116; 32; 102; 105; 110; 100; 32; 101; 110; 100; 32; 113; 117; 111; 116; 101; 32; 105; 110; 32; 115; 116; 114; 105; 110; 103]) l)
+          else dol l <- next src l; LOk (tok_at lc T_STRING (rev chars) l)
         end
       else if c =? 38 then
         dol tl <- choice src l 38 T_ILLEGAL T_AND;
         let '(t, l) := tl in
         if t =? T_ILLEGAL
-        then LOk (tok_at l l0 T_ILLEGAL ((* unexpected char after '&' *) [117; 110; 101; 120; 112; 101; 99; 116; 101; 100; 32; 99; 104; 97; 114; 32; 97; 102; 116; 101; 114; 32; 39; 38; 39]) l)
-        else LOk (tok_at lc l0 t [] l)
+        then LOk (tok_at l T_ILLEGAL ((* unexpected char after '&' *) [117; 110; 101; 120; 112; 101; 99; 116; 101; 100; 32; 99; 104; 97; 114; 32; 97; 102; 116; 101; 114; 32; 39; 38; 39]) l)
+        else LOk (tok_at lc t [] l)
       else
         dol r <- scan_symbol src c l;
         let '(t, v, l) := r in
-        LOk (tok_at lc l0 t v l)
+        LOk (tok_at lc t v l)
   end.
 
 (* func (l *Lexer) Scan() *)
@@ -456,10 +448,10 @@ Definition scan_regex (src : bytes) (fuel : nat) (l0 : lexer) : lres (token * le
   let chars := if back =? 2 then [61] else [] in
   dol r <- regex_loop src fuel chars l0;
   match r with
-  | RxErr msg l => LOk (tok_at l l0 T_ILLEGAL msg l)
+  | RxErr msg l => LOk (tok_at l T_ILLEGAL msg l)
   | RxOk chars l =>
     dol l <- next src l;
-    LOk (mkT (col_add (lpos l0) (- back)) T_REGEX (rev chars) (offset l0 - 1 - back) (xl l0) (over l), l)
+    LOk (mkT (col_add (lpos l0) (- back)) T_REGEX (rev chars) (offset l0 - 1 - back), l)
   end.
 
 Definition ScanRegex (src : bytes) (fuel : nat) (l : lexer) : lres (token * lexer) :=
